@@ -697,6 +697,13 @@ func (m *Machine) RunPath(entry *ssa.Function, sample bool) (res PathResult) {
 		for _, c := range m.covers {
 			m.Stats.Covers[c]++
 		}
+		if !sample && res.Failure == nil && res.End == "done" {
+			for _, c := range m.covers {
+				if strings.HasPrefix(c, "KNOWN:") && m.Stats.Covers[c] <= 2 {
+					sample = true
+				}
+			}
+		}
 		if sample && res.Failure == nil && res.End == "done" {
 			nd, obs, ok := m.model(nil)
 			if ok {
